@@ -280,6 +280,18 @@ exit 0
                 out.append({"inputs": build, "cwd": cwd, "argv": ["--llvm", "-t", types, "-o", "@SB@/" + o], "out": o, "pre_out": pre, "tag": "multi-output"})
         out.append({"inputs": build, "cwd": "in/build", "argv": ["--llvm", "-t", types, "-o", "../../out/rel-missing"], "out": "out/rel-missing", "tag": "multi-output"})
         out.append({"inputs": build, "cwd": "in/build", "argv": ["--llvm", "-t", types], "out": "in/build/html" if "html" in types else None, "tag": "multi-output-no-o"})
+    # the same backslash names as literal FILE names inside a directory argument (staged as symbolic links)
+    bsdir = [{"kind": "dir", "name": "bsd", "entries": [["..\\..\\canary\\d1.gcno", n["gcc_gcno_main"], "gcno"], ["..\\..\\canary\\d1.gcda", n["gcc_gcda_main"], "gcda"],
+                                                       ["..\\..\\canary\\nd3\\o.gcno", n["gcc_gcno_orphan"], "gcno"], ["k/..\\..\\..\\canary\\nd4\\q.profraw", n["profraw_1"], "profraw"],
+                                                       ["..\\..\\canary\\r.profdata", n["profraw_2"], "profdata"], ["ok/fine.info", n["info_a"], "info"]]}]
+    for argv, o, pre in OUTPUTS[:2]:
+        out.append({"inputs": bsdir, "argv": argv, "out": o, "pre_out": pre, "tag": "backslash-names-in-directory"})
+    out.append({"inputs": bsdir, "argv": ["--llvm", "-t", "lcov", "-o", "../out/o.lcov"], "out": "out/o.lcov", "tag": "backslash-names-in-directory"})
+    # --abs-link-prefix only changes LINKS in the pages: a writable absolute directory inside the sandbox, a URL, relative prefixes
+    for pref in ("@SB@/canary/www", "@SB@/canary/www/", "https://example.org/cov/", "rel/prefix", "../up", "/"):
+        for more in ([], ["--branch", "--threads", "2"]):
+            out.append({"inputs": build, "cwd": "in/build", "argv": ["--llvm", "-t", "html", "-o", "@SB@/out/html", "--abs-link-prefix", pref] + more, "out": "out/html", "tag": "abs-link-prefix"})
+        out.append({"inputs": build, "cwd": "in/build", "argv": ["--llvm", "-t", "html,lcov", "-o", "@SB@/out/multi", "--abs-link-prefix", pref], "out": "out/multi", "pre_out": "dir", "tag": "abs-link-prefix"})
     # hostile archives
     long = "d" * 100 + "/" + "e" * 100 + "/" + "f" * 90
     hostile_sets = [
@@ -299,6 +311,15 @@ exit 0
         ("mid-profraw", [("good.info", n["info_a"]), ("obj/../../../canary/escaped.profraw", n["profraw_1"])], [("obj/../../../canary/escaped.profraw", "escaped_1.profraw")], []),
         ("mid-profdata", [("obj/./../../../canary/e.profdata", n["profraw_2"]), ("x/../y.profdata", n["profraw_1"])],
          [("obj/./../../../canary/e.profdata", "e_1.profdata"), ("x/../y.profdata", "y_1.profdata")], ["-b", "../canary"]),
+        # backslash forms: ONE ordinary component on Unix (so they are "safe" and stay inside the temp dir as odd file names); a '\\' -> '/' rewrite anywhere
+        # between the safety test and the join would turn them into climbing paths
+        ("bs-dotdot", [("..\\..\\canary\\evil.gcno", n["gcc_gcno_main"]), ("..\\..\\canary\\evil.gcda", n["gcc_gcda_main"]),
+                       ("..\\..\\canary\\newdir\\o.gcno", n["gcc_gcno_orphan"])],
+         [("..\\..\\canary\\evil.gcno", "..\\..\\canary\\evil_1.gcno"), ("..\\..\\canary\\evil.gcda", "..\\..\\canary\\evil_1.gcda"),
+          ("..\\..\\canary\\newdir\\o.gcno", "..\\..\\canary\\newdir\\o_1.gcno")], []),
+        ("bs-mixed", [("obj\\..\\..\\..\\canary\\m2.gcno", n["gcc_gcno_main"]), ("obj\\..\\..\\..\\canary\\m2.gcda", n["gcc_gcda_main"]),
+                      ("sub/..\\..\\..\\canary\\nd2\\p.profraw", n["profraw_1"]), ("\\abs\\x.profdata", n["profraw_2"])],
+         [("obj\\..\\..\\..\\canary\\m2.gcno", "obj\\..\\..\\..\\canary\\m2_1.gcno"), ("sub/..\\..\\..\\canary\\nd2\\p.profraw", "..\\..\\..\\canary\\nd2\\p_1.profraw")], []),
         ("info-names", [("../../canary/i.info", n["info_a"]), ("@SB@/canary/j.xml", n["xml_1"])], [], []),
     ]
     for tag, members, hostile, extra in hostile_sets:
@@ -333,7 +354,7 @@ def run(chk):
                        "(paths, sizes, SHA-256, link targets) before and after: 12 output configurations (lcov, html, html into an existing dir, covdir, files, cobertura, "
                        "cobertura-pretty, markdown, ade, coveralls, four types into one directory, stdout) x {benign dir+zip+plain inputs with --llvm, tracefiles whose SF paths are "
                        "relative with '..', absolute, or normalise outside, with and without -s}; several output types with -o an existing / missing / nested missing directory or a regular file, started from elsewhere and from inside the input directory; GCC path from directories and zips (gcov runs); source-based coverage with stand-in llvm-profdata/llvm-cov and profiles as plain arguments, in a directory, in a zip and mixed, failing llvm-profdata / llvm-cov stubs, directory symlinks named like profiles next to <stem>_1.<ext>/ directories, and same-named profiles with different contents in different sub-directories of a directory and a zip (both orders, dir+dir, zip+zip); recorded paths with backslashes whose literal file exists under -s and the working directory (html, multi-output); symlinked input directory and links "
-                       "inside an input directory; hostile zips (member names with '..', absolute, '..' that stays inside, 295-byte names, duplicates, hostile .info/.xml names; with and "
+                       "inside an input directory; --abs-link-prefix with an absolute writable directory / URL / relative prefixes; backslash-dot-dot names as zip members and as literal file names in a directory; hostile zips (member names with '..', absolute, '..' that stays inside, 295-byte names, duplicates, hostile .info/.xml names; with and "
                        "without --llvm).  Every changed path must lie in TMPDIR or at the output location, TMPDIR must be empty after exit 0; Model/Confine.v's verdict "
                        "on every hostile member name is evaluated (safe => inside); unsafe members must leave no trace outside (regression guard for the fixed zip-slip).  non-trivial = run with distinct (arguments, changes)")
     chk.cov["trusted_base"] = ["Coq kernel; vm_compute for run_confine", "the kernel's path resolution and what the external gcov binary writes are observed, not modelled",
